@@ -547,6 +547,7 @@ fn follow_family(ctx: &Ctx, report: &mut Report) -> Result<(), String> {
             report.outcomes.insert(fp(&(r.live.len(), r.history.len())));
         }
         report.traces += 1;
+        report.sample(json!({"family": "follow", "first_lead": lead, "deliveries": trace, "queries_per_step": queries.len(), "final_live_cells": reference(&rig.node.main_chain()).live.len()}));
         let _ = &rig.cons;
         rig.node.shutdown();
     }
